@@ -239,6 +239,14 @@ def ievalLine (d : DSt) (q : IExpr) : String :=
       | .atLeast _ => "atleast"
     "ok " ++ kind ++ " sel=" ++ showAddrs ((d.st.rows.filter fun p => res.mask.selected p.1).map (·.1))
 
+def indexLine (d : DSt) (c k : String) : DSt × String :=
+  match parseCol c, (if k = "btree" then some Kind.btree else if k = "bitmap" then some Kind.bitmap else none) with
+  | some c, some k =>
+    if !decide (c < width) then (d, "err parse")
+    else if !d.started then (d, "err not_found")
+    else finish d ((C19.step d.st (.index c k)).map fun st' => { d with st := st' })
+  | _, _ => (d, "err parse")
+
 def step (d : DSt) (line : String) : DSt × String :=
   let toks := (line.dropRightWhile (· == '\n')).splitOn " "
   if toks.any (· == "") then (d, "err parse") else
@@ -291,13 +299,15 @@ def step (d : DSt) (line : String) : DSt × String :=
   | ["optimize"] =>
     if !d.started then (d, "err not_found")
     else finish d ((C19.step d.st .optimize).map fun st' => { d with st := st' })
-  | ["index", c, k] =>
-    match parseCol c, (if k = "btree" then some Kind.btree else if k = "bitmap" then some Kind.bitmap else none) with
-    | some c, some k =>
-      if !decide (c < width) then (d, "err parse")
-      else if !d.started then (d, "err not_found")
-      else finish d ((C19.step d.st (.index c k)).map fun st' => { d with st := st' })
-    | _, _ => (d, "err parse")
+  | ["index", c, k] => indexLine d c k
+  | ["index", c, "btree", z] =>
+    -- `z<n>`: zone size of the BTree (pages of n rows); the model's leaf search does not depend on it
+    match z.toList with
+    | 'z' :: ds =>
+      match (if ds.length > 4 then none else Table.parseNatChars ds) with
+      | some n => if n ≥ 1 then indexLine d c "btree" else (d, "err parse")
+      | none => (d, "err parse")
+    | _ => (d, "err parse")
   | "plan" :: cols :: rest =>
     match parseNatList cols, parseExprAll rest with
     | some cols, some e =>
